@@ -5,5 +5,6 @@ CONSTANTS
   QCap = 2
   MaxWrites = 8
   SendUnderLock = FALSE
-INVARIANTS NoSendUnderLock WritersNeverStuck
+  FlushTrySend = FALSE
+INVARIANTS NoSendUnderLock WritersNeverStuck TasksAnnounced
 CHECK_DEADLOCK FALSE
